@@ -80,7 +80,7 @@ def early_part(ck, tier, rng):
 
 def main(tier, seed):
     return sprops.main_S(PID, tier, seed, {61, 62}, "Props.C05",
-                         ["Model/Sim.v", "Oracle/SimCheck.v", "Oracle/SimOracle.v", "Proofs/SimP.v", "Props/C05.v"],
+                         ["Model/Sim.v", "Oracle/SimCheck.v", "Oracle/SimOracle.v", "Proofs/SimP.v", "Model/PyLib.v", "Gen/SourceFuns.v", "Proofs/GenNestedPrologueP.v", "Props/C05.v"],
                          "initial tick", "initial", extra=early_part)
 
 
